@@ -380,6 +380,15 @@ func mangleStrD(in string, joliet bool) stringD {
 	return stringD(ret)
 }
 
+// fitStrD truncates string (mangled, so one or for joliet two bytes per character) to fit field of descriptor.
+func fitStrD(s stringD, maxLen int) stringD {
+	if len(s) > maxLen {
+		return s[:maxLen]
+	}
+
+	return s
+}
+
 func mangleStrD1(in string, joliet bool) stringD1 {
 	ret := strings.Map(func(r rune) rune {
 		for _, i := range d1Characters {
